@@ -6,7 +6,7 @@ CLI = ("bkl",)
 HARNESS = True
 ASSUMPTIONS = ["theorems are about Model.Eval.validate/outputs_of; tie to validate.go/parser.go is this run's comparison of success/failure (and the required-field / invalid-directive class) and outputs"]
 RULE = ("layer chains (1-3 layers) with $required and directive-shaped strings/keys (known, unknown, wrong position, wrong argument type, upper-case and "
-        "non-ASCII look-alikes) injected at values, list entries and keys, also under $output:false, inside $encode subtrees and inside YAML anchors reached through aliases and merge keys; compared: "
+        "non-ASCII look-alikes) injected at values, list entries and keys, also under $output:false, inside $encode subtrees (single encodings and chains whose first stage only reshapes: values/flatten/tolist/prefix) and inside YAML anchors reached through aliases and merge keys; compared: "
         "ok/err with error class, outputs; implementation-only oracle: a successful output of an input without '$$' contains no '$required' and no "
         "'$'+lowercase string; non-trivial = an injected marker is present in some layer; distinct by hash")
 
